@@ -109,6 +109,17 @@ def after_io_fault(world, ctx):
     f = [x for x in ctx["fired"] if x.mode in ("pre", "post")][0]
     world.probe("ioerror-injected")
     world.evals += 1
+    if world.prop == "C06":
+        # C06 binds error paths too: whatever the failed call left behind,
+        # an index that claims to be valid must equal a rebuild
+        try:
+            ctx["actual"] = world.observe()
+        except DecodeError:
+            ctx.pop("actual", None)
+        if "actual" in ctx and world.db is not None:
+            world.faulted_index_check = True
+            world.check_index(ctx)
+        world.nontrivial.add(("after-ioerror", k, f.fired, f.mode))
     if world.prop == "C16" and k in INSERTS:
         # C16 also binds an insert that fails: it still only appends and
         # still reads nothing, however many points are stored
